@@ -28,6 +28,9 @@ pub struct PrCase {
 	pub missing: String,
 	pub repeats: usize,
 	pub perm: u64,
+	/// "" | cert | key | both: that file is a symbolic link to a regular file in another directory | dir: the directory is a link
+	#[serde(default)]
+	pub linked: String,
 }
 
 fn issuer() -> &'static Issuer {
@@ -71,12 +74,12 @@ fn pr_strategy() -> impl Strategy<Value = PrCase> {
 		prop_oneof![3 => Just(1usize), 1 => Just(200usize)],
 		any::<u64>(),
 		any::<i8>(),
-		any::<bool>(),
+		(any::<bool>(), prop_oneof![6 => Just(""), 1 => Just("cert"), 1 => Just("key"), 1 => Just("both"), 1 => Just("dir")]),
 	)
-		.prop_map(|(ids, san_mode, rel, renew_delay, rer, missing, repeats, perm, edge, at_edge)| {
+		.prop_map(|(ids, san_mode, rel, renew_delay, rer, missing, repeats, perm, edge, (at_edge, linked))| {
 			// +-1 s around now + renew_delay
 			let not_after_rel = if at_edge && renew_delay < (7000 * YEAR) as u64 { renew_delay as i64 + (edge % 3) as i64 } else { rel };
-			PrCase { ids, san_mode: san_mode.to_string(), not_after_rel, renew_delay, random_early_renew: rer, missing: missing.to_string(), repeats, perm }
+			PrCase { ids, san_mode: san_mode.to_string(), not_after_rel, renew_delay, random_early_renew: rer, missing: missing.to_string(), repeats, perm, linked: linked.to_string() }
 		})
 }
 
@@ -127,11 +130,26 @@ fn exec_pr(case: &PrCase) -> Outcome {
 		Ok(p) => p,
 		Err(e) => return Outcome::Infra(format!("issue: {e}")),
 	};
+	// storage moved elsewhere with links left behind: a file reached through a link exists like any other
+	let real = dir.join("moved-storage");
+	let _ = std::fs::create_dir_all(&real);
+	if case.linked == "dir" {
+		let _ = std::fs::remove_dir_all(&lay.certs);
+		let _ = std::os::unix::fs::symlink(&real, &lay.certs);
+	}
+	let put = |name: &str, data: &[u8], link: bool| {
+		if link {
+			let _ = std::fs::write(real.join(name), data);
+			let _ = std::os::unix::fs::symlink(real.join(name), lay.certs.join(name));
+		} else {
+			let _ = std::fs::write(lay.certs.join(name), data);
+		}
+	};
 	if case.missing != "cert" {
-		let _ = std::fs::write(lay.certs.join("s_ecdsa-p256.crt.pem"), &pem);
+		put("s_ecdsa-p256.crt.pem", &pem, case.linked == "cert" || case.linked == "both");
 	}
 	if case.missing != "key" {
-		let _ = std::fs::write(lay.certs.join("s_ecdsa-p256.pk.pem"), key_pem);
+		put("s_ecdsa-p256.pk.pem", key_pem, case.linked == "key" || case.linked == "both");
 	}
 	let cert = json!({
 		"identifiers": case.ids.iter().map(|i| json!({"type": i.ty, "value": i.config, "challenge": if i.ty == "ip" { "http-01" } else { "dns-01" }})).collect::<Vec<_>>(),
@@ -185,7 +203,7 @@ fn exec_pr(case: &PrCase) -> Outcome {
 		}
 	}
 	let e = e_at(t0);
-	let mut classes = vec![format!("san={}", case.san_mode), format!("missing={}", case.missing)];
+	let mut classes = vec![format!("san={}", case.san_mode), format!("missing={}", case.missing), format!("linked={}", if case.linked.is_empty() { "no" } else { &case.linked })];
 	if case.not_after_rel < 0 {
 		classes.push("expired".into());
 	}
@@ -222,10 +240,13 @@ pub struct BbCase {
 	pub lifetime: u64,
 	pub renew_delay: u64,
 	pub random_early_renew: u64,
+	/// other certificates of the same account and endpoint whose files are in place and valid for months: they only wait
+	#[serde(default)]
+	pub waiting: usize,
 }
 
 fn bb_strategy() -> impl Strategy<Value = BbCase> {
-	(3u64..=6, 0u64..=7, 0u64..=2).prop_map(|(l, d, r)| BbCase { lifetime: l, renew_delay: d, random_early_renew: r })
+	(3u64..=6, 0u64..=7, 0u64..=2, prop_oneof![1 => Just(0usize), 1 => 1usize..=2]).prop_map(|(l, d, r, waiting)| BbCase { lifetime: l, renew_delay: d, random_early_renew: r, waiting })
 }
 
 fn exec_bb(case: &BbCase) -> Outcome {
@@ -241,18 +262,42 @@ fn exec_bb(case: &BbCase) -> Outcome {
 	};
 	let ids = vec![("dns".to_string(), "r.c06.test".to_string())];
 	let plan = CaPlan { not_before_s: -5, not_after_s: case.lifetime as i64, polls_authz: 0, polls_ready: 0, polls_valid: 0, chain_len: 1, ..CaPlan::default() };
-	let ca = match MockCa::start(plan, vec![(bb::ident_key(&ids), "c1".into())]) {
+	let mut map = vec![(bb::ident_key(&ids), "c1".to_string())];
+	for w in 0..case.waiting {
+		map.push((bb::ident_key(&[("dns".to_string(), format!("w{w}.c06.test"))]), format!("w{w}")));
+	}
+	let ca = match MockCa::start(plan, map) {
 		Ok(c) => c,
 		Err(e) => return Outcome::Infra(e),
 	};
+	let mut certs = vec![json!({"name": "c1", "account": "a1", "endpoint": "e1", "key_type": "ecdsa-p256", "hooks": ["rec-http-01", "rec-http-01-clean", "rec-post"],
+			"renew_delay": format!("{}s", case.renew_delay), "random_early_renew": format!("{}s", case.random_early_renew),
+			"env": {bb::CERT_ENV: "c1"}, "identifiers": [{"dns": "r.c06.test", "challenge": "http-01"}]})];
+	for w in 0..case.waiting {
+		// files in place, valid for 90 days, renew_delay 30 days: nothing to do for this one but wait
+		let now = std::time::SystemTime::now().duration_since(std::time::UNIX_EPOCH).unwrap().as_secs() as i64;
+		let (spki, key_pem) = leaf_key();
+		let pem = match issuer().issue_abs(spki, &[GeneralName::Dns(format!("w{w}.c06.test"))], now - 86_400, now + 90 * 86_400, 1) {
+			Ok(p) => p,
+			Err(e) => return Outcome::Infra(format!("issue: {e}")),
+		};
+		let _ = std::fs::write(lay.certs.join(format!("w{w}_ecdsa-p256.crt.pem")), &pem);
+		let _ = std::fs::write(lay.certs.join(format!("w{w}_ecdsa-p256.pk.pem")), key_pem);
+		let mut c = json!({"name": format!("w{w}"), "account": "a1", "endpoint": "e1", "key_type": "ecdsa-p256", "hooks": ["rec-http-01", "rec-http-01-clean", "rec-post"],
+			"env": {bb::CERT_ENV: format!("w{w}")}, "identifiers": [{"dns": format!("w{w}.c06.test"), "challenge": "http-01"}]});
+		// listed before or after the certificate under test
+		if w == 0 {
+			certs.insert(0, c.take());
+		} else {
+			certs.push(c.take());
+		}
+	}
 	let cfg = json!({
 		"global": lay.global(),
 		"endpoint": [{"name": "e1", "url": ca.directory_url(), "tos_agreed": true}],
 		"account": [{"name": "a1", "contacts": [{"mailto": "a@c06.test"}]}],
 		"hook": bb::std_hooks(&coll.sock),
-		"certificate": [{"name": "c1", "account": "a1", "endpoint": "e1", "key_type": "ecdsa-p256", "hooks": ["rec-http-01", "rec-http-01-clean", "rec-post"],
-			"renew_delay": format!("{}s", case.renew_delay), "random_early_renew": format!("{}s", case.random_early_renew),
-			"env": {bb::CERT_ENV: "c1"}, "identifiers": [{"dns": "r.c06.test", "challenge": "http-01"}]}],
+		"certificate": certs,
 	});
 	let cfg_path = bb::write_config(&dir, "acmed.toml", &cfg);
 	let mut daemon = match Daemon::spawn(&bb::daemon_opts(&acmed, &dir, &cfg_path, "run")) {
@@ -270,6 +315,9 @@ fn exec_bb(case: &BbCase) -> Outcome {
 	let d = format!("{case:?}");
 	if st != ProcState::Alive {
 		return Outcome::fail("C06:daemon-died", format!("{st:?}; {d}\n{tail}"));
+	}
+	if let Some(l) = snap.log.iter().find(|l| l.pos == Pos::NewOrder && l.cert.as_deref().map(|c| c.starts_with('w')).unwrap_or(false)) {
+		return Outcome::fail("C06:renewal-early", format!("an order for {:?}, whose certificate is valid for 90 days with renew_delay 30 days; {d}", l.cert));
 	}
 	let orders: Vec<u64> = snap.log.iter().filter(|l| l.pos == Pos::NewOrder && l.status == 201).map(|l| l.t_ns).collect();
 	let Some(issued) = snap.orders.first().and_then(|o| o.t_issued_ns) else {
@@ -293,7 +341,7 @@ fn exec_bb(case: &BbCase) -> Outcome {
 }
 
 pub fn run(ctx: &Ctx, rep: &mut Report) {
-	rep.rule = "pr: (certificate on disk, key file, configuration) triples: notAfter from -10 years to +7900 years around the call incl. +-1 s around now+renew_delay and beyond 2^31 s; SAN = configured identifiers permuted / superset / strict subset / disjoint (1..5 identifiers: wildcard, IDN, IPv4, IPv6); renew_delay and random_early_renew in {0, 1 s, ..., larger than the lifetime, 1e9 s, thousands of years}; either file absent; 1 or 200 evaluations. Oracle on the duration D returned by the daemon's scheduling decision with wall clock t0/t1 around the call: missing file or identifier => D = 0; else E(t) = max(0, notAfter - t - renew_delay): D <= E(t0)+1 and D >= E(t1)-R-1; 200 evaluations spread over every third of the jitter range, equal when R = 0; never a crash or error. bb: mock CA issues certificates valid L in 3..6 s, renew_delay 0..7 s, jitter 0..2 s: the second newOrder arrives within [L-d-R-1.2 s, max(L-d,0)+2.5 s] after issuance. Non-trivial = all identifiers covered and E > 0.".into();
+	rep.rule = "pr: (certificate on disk, key file, configuration) triples: notAfter from -10 years to +7900 years around the call incl. +-1 s around now+renew_delay and beyond 2^31 s; SAN = configured identifiers permuted / superset / strict subset / disjoint (1..5 identifiers: wildcard, IDN, IPv4, IPv6); renew_delay and random_early_renew in {0, 1 s, ..., larger than the lifetime, 1e9 s, thousands of years}; either file absent; certificate file, key file, both or the directory reached through a symbolic link (1 case in 2.5); 1 or 200 evaluations. Oracle on the duration D returned by the daemon's scheduling decision with wall clock t0/t1 around the call: missing file or identifier => D = 0; else E(t) = max(0, notAfter - t - renew_delay): D <= E(t0)+1 and D >= E(t1)-R-1; 200 evaluations spread over every third of the jitter range, equal when R = 0; never a crash or error. bb: mock CA issues certificates valid L in 3..6 s (in half of the cases next to 1..2 other certificates of the same account and endpoint whose files are valid for 90 days and which must only wait), renew_delay 0..7 s, jitter 0..2 s: the second newOrder arrives within [L-d-R-1.2 s, max(L-d,0)+2.5 s] after issuance. Non-trivial = all identifiers covered and E > 0.".into();
 	run_replays::<PrCase>(ctx, rep, "pr", &exec_pr);
 	run_replays::<BbCase>(ctx, rep, "bb", &exec_bb);
 	if ctx.replay.is_some() {
